@@ -600,7 +600,7 @@ impl CodegenContext {
                                 .allowed("fill")
                                 .allowed("filename")
                                 .extract(id.span, &kvps)?;
-                            let name = Identifier::new(extractor.get_string(self, "name")?);
+                            let name = extractor.get_identifier(self, "name")?;
 
                             let opts = BankOptions {
                                 name: name.clone(),
@@ -633,7 +633,7 @@ impl CodegenContext {
                                 .extract(id.span, &kvps)?;
 
                             let mut opts = SegmentOptions::default();
-                            let name = Identifier::new(extractor.get_string(self, "name")?);
+                            let name = extractor.get_identifier(self, "name")?;
                             match extractor.try_get_i64(self, "start") {
                                 Ok(Some(val)) => {
                                     log::trace!(
@@ -662,8 +662,7 @@ impl CodegenContext {
                             if let Some(write) = extractor.try_get_i64(self, "write")? {
                                 opts.write = write != 0;
                             }
-                            opts.bank =
-                                extractor.try_get_string(self, "bank")?.map(Identifier::new);
+                            opts.bank = extractor.try_get_identifier(self, "bank")?;
                             match extractor.try_get_i64(self, "pc")? {
                                 Some(target) => opts.target_address = target.into(),
                                 None => opts.target_address = opts.initial_pc,
@@ -1054,10 +1053,17 @@ impl CodegenContext {
                 }
             }
             Token::Segment { id, block, .. } => {
-                if let Some(segment_id) = self
-                    .evaluate_expression_as_string(id, true)?
-                    .map(Identifier::new)
-                {
+                if let Some(segment_name) = self.evaluate_expression_as_string(id, true)? {
+                    if segment_name.contains('.') {
+                        return Err(Diagnostic::error()
+                            .with_message(format!(
+                                "'{}' is not a valid name: a name may not contain a period",
+                                segment_name
+                            ))
+                            .with_labels(vec![id.span.to_label()])
+                            .into());
+                    }
+                    let segment_id = Identifier::new(segment_name);
                     if !self.segments.contains_key(&segment_id) {
                         return Err(Diagnostic::error()
                             .with_message(format!("unknown identifier: {}", id.data))
